@@ -69,3 +69,59 @@ Example C01_example :
 Proof. vm_compute. split; reflexivity. Qed.
 Goal True. idtac "ASSUMPTIONS-OF C01_example". Abort.
 Print Assumptions C01_example.
+
+(* ---- STATEMENT LEVEL (a first part of the ~400 match/tostr pairs): the two base matchers that many statement
+   classes delegate to with constant arguments, EndStmtBase (END [type [name]]) and WORDClsBase (KEYWORD [[::] rest])
+   for a string keyword -- Model/StmtBase.v.  Which classes delegate, and with which arguments, is read off the
+   source of their match() methods on every run (tools/translate_stmtbase.py -> Gen/StmtBaseGen.v; any other shape
+   of match() leaves the class out); the models are compared with those classes on generated texts inside Coq
+   (tools/stmtbase_corr.py).
+   For EVERY live END statement class: the text its tostr prints is matched again as the same tuple, whatever the
+   name; the case of the keywords and the number of blanks after END do not matter; a bare END is accepted exactly
+   when the class does not require the type; whatever is accepted with a name starts with END and has an
+   identifier as its name.  (_partial: 13 END and 24 keyword classes out of the ~400; the name class is Name.) *)
+From Coq Require Import Ascii String.
+From FV Require Import SplitLine Text Reader ReaderJoin StmtBase StmtBaseLaws StmtBaseGen StmtBaseOk.
+Theorem C01_every_live_end_statement_class_rematches_its_own_text_partial :
+  forall cls stype named req, In (cls, stype, named, req) end_classes ->
+  (forall n, named = true -> is_name n = true -> end_match stype named req (end_tostr stype (ENamed n)) = ENamed n) /\
+  end_match stype named req (end_tostr stype EType) = EType /\
+  (forall e b t, upper e = end_kw -> blanks b -> upper t = stype -> end_match stype named req (e ++ b ++ t) = EType) /\
+  end_match stype named req (end_tostr stype EBare) = (if req then ENoMatch else EBare) /\
+  (forall s n, end_match stype named req s = ENamed n -> upper (firstn 3 s) = end_kw /\ is_name n = true /\ named = true).
+Proof. exact live_end_classes. Qed.
+Goal True. idtac "ASSUMPTIONS-OF C01_every_live_end_statement_class_rematches_its_own_text_partial". Abort.
+Print Assumptions C01_every_live_end_statement_class_rematches_its_own_text_partial.
+
+(* For EVERY live keyword statement class: KEYWORD rest / KEYWORD :: rest / KEYWORD as printed are matched again
+   with the same remainder (whatever the sub-rule makes of it); a keyword glued to a letter, digit or underscore is
+   not that keyword; the keyword is recognised in any case. *)
+Theorem C01_every_live_keyword_statement_class_rematches_its_own_text_partial :
+  forall cls kw has colons req, In (cls, kw, has, colons, req) word_classes ->
+  (forall rest, has = true -> starts_solid rest -> (colons = true -> no_colons rest) ->
+     word_match kw has colons req (word_tostr kw false (WRest rest)) = WRest rest) /\
+  (forall rest, has = true -> colons = true -> starts_solid rest ->
+     word_match kw has colons req (word_tostr kw true (WRest rest)) = WRest rest) /\
+  (req = false -> word_match kw has colons req (word_tostr kw false WBare) = WBare) /\
+  (forall c r, is_alnum_us c = true -> word_match kw has colons req (kw ++ c :: r) = WNoMatch) /\
+  (forall k2 rest, upper k2 = upper kw -> starts_solid k2 ->
+     word_match kw has colons req (k2 ++ rest) = word_match kw has colons req (kw ++ rest)).
+Proof. exact live_word_classes. Qed.
+Goal True. idtac "ASSUMPTIONS-OF C01_every_live_keyword_statement_class_rematches_its_own_text_partial". Abort.
+Print Assumptions C01_every_live_keyword_statement_class_rematches_its_own_text_partial.
+
+(* the tables are not empty and the statements are about real classes: END DO / IMPORT on concrete texts *)
+Example C01_example_statement_level :
+  let t := fun x => list_ascii_of_string x in
+  In ("f2003:End_Do_Stmt"%string, t "DO"%string, true, true) end_classes /\
+  In ("f2003:Import_Stmt"%string, t "IMPORT"%string, true, true, false) word_classes /\
+  end_match (t "DO"%string) true true (t "eNd   dO outer"%string) = ENamed (t "outer"%string) /\
+  end_tostr (t "DO"%string) (ENamed (t "outer"%string)) = t "END DO outer"%string /\
+  end_match (t "DO"%string) true true (t "END"%string) = ENoMatch /\
+  end_match (t "DO"%string) true true (t "END DO 1x"%string) = ENameFail /\
+  word_match (t "IMPORT"%string) true true false (t "import::a, b"%string) = WRest (t "a, b"%string) /\
+  word_match (t "IMPORT"%string) true true false (t "importa"%string) = WNoMatch /\
+  word_match (t "IMPORT"%string) true true false (t "IMPORT"%string) = WBare.
+Proof. cbv zeta. repeat split; vm_compute; tauto. Qed.
+Goal True. idtac "ASSUMPTIONS-OF C01_example_statement_level". Abort.
+Print Assumptions C01_example_statement_level.
